@@ -372,7 +372,9 @@ def finishLevel (cols : Cols) (pairs : List (Row × List (Int × Bool))) (hasOrd
     | (r0, _) :: rest => rest.all (fun p => rowEqOn cols p.1 r0)
   let n := sorted.length
   let sliced := sliceList offset (limit.map (· + offset)) sorted
-  let sliceDet := (offset == 0 && (match limit with | none => true | some l => l ≥ n)) || total || allSame
+  -- a window that is certainly empty, or certainly everything, does not depend on the order
+  let sliceDet := limit == some 0 || offset ≥ n ||
+    (offset == 0 && (match limit with | none => true | some l => l ≥ n)) || total || allSame
   { rows := sliced.map (·.1), det := detIn && sliceDet, total := total }
 
 mutual
